@@ -348,7 +348,10 @@ def validate_traces(run, module, consts, invs, trace_path, label, max_reject=4, 
                          "prefix": tr[max(0, bad_line - first - 12):bad_line - first + 1], "trace": tr if len(tr) < 400 else tr[:bad_line - first + 1][-400:]})
         run.traces_validated += max(0, nruns - 1) if attempt == max_reject else 0
         with open(path, "w") as f:
-            f.write("\n".join(l for l in lines if json.loads(l).get("run") != rid) + "\n")
+            if nruns <= 1:
+                f.write("\n".join(l for i, l in enumerate(lines) if i != bad_line - 1) + "\n")
+            else:
+                f.write("\n".join(l for l in lines if json.loads(l).get("run") != rid) + "\n")
     return rejected
 
 
